@@ -105,6 +105,11 @@ def z2(ctx):
         for c in b.calls:
             if b.blocks[c.bb]["cleanup"] or not c.callee:
                 continue
+            if c.callee.name in ("hash", "hash_slice") and c.args and "Hash" in (c.callee.fn or "") + (c.callee.target or ""):
+                pl = mir.op_place(c.args[0])
+                ty0 = b.local_ty(pl["l"]) if pl is not None and not pl["p"] else ""
+                if re.search(r"^&?(mut )?\s*\*(const|mut) ", ty0) or re.search(r"^&?\[\*(const|mut) ", ty0):
+                    ctx.bad("ptr-hash:" + C.fkey(root), "%s feeds a raw pointer (%s) to a hasher: the hash — and with it the iteration order of every hash set / map of such values, which the library iterates (generator sets, orbit tables) — depends on where the allocator placed the value, which differs between threads and runs" % (C.short(root.id), ty0[:50]), where_of(b, c.bb))
             if c.callee.name in ("sort_by_key", "sort_unstable_by_key", "sort_by_cached_key", "min_by_key", "max_by_key", "binary_search_by_key") and c.args:
                 cl = C._closure_of_role(crate, b.role_of_operand(c.args[-1]))
                 if hasattr(cl, "local_ty") and PTR.search(cl.local_ty(0)):
